@@ -2,7 +2,7 @@
 # usage: tools/try_patch.sh <patch.diff|-R:commit> <property> [extra check args]
 # applies the patch to a scratch worktree of /repo (outside /repo and /verif), runs the check against it, removes the worktree.
 set -u
-P=$1; shift
+P=$1; shift; [[ "$P" != -R:* ]] && P=$(readlink -f "$P")
 PROP=$1; shift
 WT=$(mktemp -d /tmp/pyvc_wt.XXXXXX)
 rmdir "$WT"
